@@ -2,7 +2,7 @@ import sys, time, os
 sys.path.insert(0, os.path.dirname(os.path.dirname(os.path.abspath(__file__)))); sys.path.insert(0, os.environ.get('STONE_REPO','/repo'))
 import z3
 from pyvc import verify, contract as CT, interp as I, vals
-import contracts.validators, contracts.ir_types, contracts.runtime_base
+import contracts.validators, contracts.ir_types, contracts.runtime_base, contracts.serializers
 try:
     import contracts.serializers
 except ImportError:
